@@ -20,7 +20,7 @@ struct Obs {
     outcome: run::Outcome,
 }
 
-fn run_threads(pool: &Arc<Vec<(Value, Value)>>, programs: &[Vec<usize>], seed: u64) -> Vec<Obs> {
+fn run_threads(pool: &Arc<Vec<(Value, Value)>>, programs: &[Vec<usize>], seed: u64, fresh: bool) -> Vec<Obs> {
     let n = programs.len();
     let barrier = Arc::new(Barrier::new(n));
     let mut handles = Vec::new();
@@ -41,8 +41,16 @@ fn run_threads(pool: &Arc<Vec<(Value, Value)>>, programs: &[Vec<usize>], seed: u
                 if rng.chance(1, 3) {
                     std::thread::yield_now();
                 }
-                let (rule, data) = &pool[idx - 1];
-                let outcome = run::run_apply(rule, data);
+                let outcome = if fresh {
+                    // fresh copies of the inputs, allocated just before the call and dropped right after it, so
+                    // that consecutive calls see equal-shaped values at recycled addresses
+                    let rule = pool[idx - 1].0.clone();
+                    let data = pool[idx - 1].1.clone();
+                    run::run_apply(&rule, &data)
+                } else {
+                    let (rule, data) = &pool[idx - 1];
+                    run::run_apply(rule, data)
+                };
                 obs.push(Obs { thread: t, pos, idx, outcome });
             }
             obs
@@ -77,7 +85,14 @@ pub fn cmd_hist(args: &[String]) {
         let pool_aj = h["pool"].as_array().unwrap_or_else(|| die("pool"));
         let pool: Vec<(Value, Value)> = pool_aj
             .iter()
-            .map(|p| (aj::from_aj(&p["rule"]).unwrap_or_else(|e| die(&e)), aj::from_aj(&p["data"]).unwrap_or_else(|e| die(&e))))
+            .map(|p| {
+                // a rule too deep for the AJ wire format comes as JSON text (parsed with the default recursion limit)
+                let rule = match p.get("rule_text").and_then(|t| t.as_str()) {
+                    Some(t) if !t.is_empty() => serde_json::from_str(t).unwrap_or_else(|e| die(&format!("rule_text: {}", e))),
+                    _ => aj::from_aj(&p["rule"]).unwrap_or_else(|e| die(&e)),
+                };
+                (rule, aj::from_aj(&p["data"]).unwrap_or_else(|e| die(&e)))
+            })
             .collect();
         let before: Vec<(String, String)> = pool.iter().map(|(r, d)| (r.to_string(), d.to_string())).collect();
         let pool = Arc::new(pool);
@@ -92,10 +107,12 @@ pub fn cmd_hist(args: &[String]) {
         let flat: Vec<usize> = programs.iter().flatten().cloned().collect();
         let mut rev = flat.clone();
         rev.reverse();
-        rounds.push(("sequential".into(), vec![flat]));
+        rounds.push(("sequential".into(), vec![flat.clone()]));
         rounds.push(("reversed".into(), vec![rev]));
+        rounds.push(("sequential-fresh".into(), vec![flat]));
+        rounds.push(("threads-fresh".into(), programs.clone()));
         for (ri, (rname, progs)) in rounds.iter().enumerate() {
-            let obs = run_threads(&pool, progs, seed.wrapping_add(ln as u64 * 1000 + ri as u64));
+            let obs = run_threads(&pool, progs, seed.wrapping_add(ln as u64 * 1000 + ri as u64), rname.ends_with("fresh"));
             for o in obs.iter() {
                 calls += 1;
                 let e = &exp[o.idx - 1];
@@ -122,7 +139,8 @@ pub fn cmd_hist(args: &[String]) {
             if ri == 0 {
                 if let Some(w) = evw.as_mut() {
                     for t in 0..progs.len() {
-                        for o in obs.iter().filter(|o| o.thread == t) {
+                        // calls on rules that are too deep for the wire format are not traced
+                        for o in obs.iter().filter(|o| o.thread == t && pool_aj[o.idx - 1].get("rule_text").and_then(|x| x.as_str()).map(|x| x.is_empty()).unwrap_or(true)) {
                             for e in run::events_aj(&o.outcome.events) {
                                 writeln!(w, "{}", e).unwrap();
                             }
